@@ -2,6 +2,7 @@ package sim
 
 import (
 	"fmt"
+	"net/netip"
 	"time"
 
 	"github.com/jwhited/corebgp"
@@ -20,20 +21,40 @@ func runC12(w *World) {
 	passive := w.Chance(1, 3, "passive")
 	ih, cr := 10*time.Second, 5*time.Second
 	handlerNotif := false
-	s := NewStd1(w, Std1Opts{Dir: DirOut, Passive: passive, LocalHold: 3, RemoteHold: 3, IdleHold: ih, Retry: cr,
+	var handlerRet, openRet *corebgp.Notification // what the plugin returns next (nil: nothing)
+	s := NewStd1(w, Std1Opts{Dir: DirOut, Passive: passive, LocalHold: 3, RemoteHold: 3, IdleHold: ih, Retry: cr, Vary: true,
 		Configure: func(p *PeerH) {
 			p.Plug.UpdFn = func(pl *Plug, ss *Session, idx int, b []byte) *corebgp.Notification {
 				if handlerNotif {
 					handlerNotif = false
 					return &corebgp.Notification{Code: 3, Subcode: byte(w.Range(1, 11, "hsub")), Data: w.RandBytes(w.Draw(5, "hdl"), "hd")}
 				}
+				if handlerRet != nil {
+					n := handlerRet
+					handlerRet = nil
+					return n
+				}
 				return nil
+			}
+			p.Plug.OpenFn = func(netip.Addr, []corebgp.Capability) *corebgp.Notification {
+				n := openRet
+				openRet = nil
+				return n
 			}
 		}})
 	if s == nil {
 		return
 	}
 	p, e := s.P, s.E
+	// a second peer with a healthy session: nothing that happens to the first one
+	// may disturb it
+	by := e.NewPeer(PeerSpec{RemoteIP: "10.0.0.3", LocalAS: 65001, RemoteAS: 65003, Hold: 90, IdleHold: time.Second, ConnectRetry: 2 * time.Second}, "10.0.0.3", 90)
+	by.Site.DialPolicy = func(*DialRec) int { return 1 }
+	by.Site.OnConn = func(c *Conn) { by.Speaker.Serve(c, nil) }
+	if err := e.Add(by); err != nil {
+		w.HarnessError("C12 bystander: %v", err)
+		return
+	}
 	bound := ih + cr + time.Second
 	refuseAll := func(*DialRec) int { return 2 }
 	takeAll := func() {
@@ -115,7 +136,16 @@ func runC12(w *World) {
 			}
 		}
 		// ---- inject ----
-		kind := w.Draw(12, "kind")
+		kind := w.Draw(15, "kind")
+		if kind == 12 && st != StOpenSent { // OnOpenMessage runs in OpenSent only
+			kind = 0
+		}
+		if kind == 13 && st != StEstablished {
+			kind = 8
+		}
+		if kind == 14 && st != StOpenSent {
+			kind = 9
+		}
 		if kind == 6 && st != StEstablished { // handler error needs a session
 			kind = 0
 		}
@@ -173,6 +203,18 @@ func runC12(w *World) {
 		case 10:
 			c.RST()
 			name, damp = "rst", false
+		case 12: // the plugin refuses the OPEN with a protocol NOTIFICATION
+			openRet = &corebgp.Notification{Code: 2, Subcode: byte(w.Range(1, 7, "osub"))}
+			c.SendSeg(p.Speaker.OpenFrame())
+			name = "tx-open-refused-by-plugin"
+		case 13: // the plugin ends the session with a Cease from the handler
+			handlerRet = &corebgp.Notification{Code: 6, Subcode: byte(w.Draw(9, "hcsub"))}
+			c.SendSeg(MkFrame(MsgUpdate, []byte{0, 0, 0, 0}))
+			name, damp = "tx-cease-from-handler", false
+		case 14: // the plugin refuses the OPEN with a Cease
+			openRet = &corebgp.Notification{Code: 6, Subcode: byte(w.Draw(9, "ocsub"))}
+			c.SendSeg(p.Speaker.OpenFrame())
+			name, damp = "tx-cease-from-onopen", false
 		default:
 			c.SendSeg(MkNotif(6, 2, nil))
 			name, damp = "rx-cease", false
@@ -180,7 +222,7 @@ func runC12(w *World) {
 		w.Quiesce()
 		t := w.Now()
 		fs := NewFrames(c, before)
-		if kind >= 2 && kind <= 7 {
+		if (kind >= 2 && kind <= 7) || kind == 12 {
 			// corebgp must have sent the NOTIFICATION that starts the hold-down; take its time
 			var nf *Frame
 			for i := range fs {
@@ -323,6 +365,10 @@ func runC12(w *World) {
 	} else {
 		p.Site.DialPolicy = func(*DialRec) int { return 1 }
 		p.Site.OnConn = func(c *Conn) { p.Speaker.Serve(c, nil) }
+	}
+	if by.Plug.NClose != 0 || by.Plug.NEst != 1 {
+		w.Violate("C12/other-peer-disturbed", "the history %v on one peer disturbed another peer's session (OnEstablished %d, OnClose %d)", hist, by.Plug.NEst, by.Plug.NClose)
+		return
 	}
 	if !w.WaitUntil("c12.final", bound, func() bool { return p.Plug.NEst > nest }) {
 		w.Violate("C12/retry/not-established-after-history", "after %v and the end of every hold-down a well-behaved remote could not establish a session within %v", hist, bound)
